@@ -560,6 +560,12 @@ def evaluate(t: Term, leaf: Callable[[Term], Any]) -> Any:
         return all(evaluate(x, leaf) for x in t[1])
     if h == "or":
         return any(evaluate(x, leaf) for x in t[1])
+    if h == "truthy" and len(t) == 2:
+        try:
+            return leaf(t)          # a rule may give the test a value of its own (e.g. 'is a communication kernel')
+        except Unknown:
+            v_ = evaluate(t[1], leaf)
+            return bool(v_) if isinstance(v_, (int, float, str, bool)) or v_ is None else (_ for _ in ()).throw(Unknown(t))
     if h == "not":
         return not evaluate(t[1], leaf)
     if h == "ite":
